@@ -115,13 +115,16 @@ Definition emit (p : problem) : tff_problem :=
      placeholder `n`, a symbolic constant or predicate named like a preamble identifier
      (general, c__infimum__, p__less__, ...), a renamed constant `p__s` meeting an existing
      predicate or constant `p__s`;
-   - a formula name that is not a lower_word after the `formula_<i>_` prefix was added. *)
+   - a formula name that is not a lower_word after the `formula_<i>_` prefix was added;
+   - a quantifier block that binds one variable twice (`forall X X F` is accepted by anthem's
+     parser and printed as `![X_g: general, X_g: general]: ..`). *)
 Fixpoint formula_vars_ok (f : formula) : bool :=
   match f with
   | FAtomic _ => true
   | FNot g => formula_vars_ok g
   | FBin _ l r => formula_vars_ok l && formula_vars_ok r
-  | FQ _ vs g => forallb (fun v => is_upper_word (vname v)) vs && formula_vars_ok g
+  | FQ _ vs g => forallb (fun v => is_upper_word (vname v)) vs
+                 && nodupb (map (fun v => (vname v ++ suffix (vsort v))%string) vs) && formula_vars_ok g
   end.
 Definition preamble_idents : list string := map (fun d => snd (fst d)) preamble_decls.
 Definition preamble_names : list string :=
@@ -178,9 +181,26 @@ Fixpoint binders_nonempty (f : formula) : bool :=
   | FQ _ vs g => negb (Nat.eqb (List.length vs) 0) && binders_nonempty g
   end.
 
+(* parser image: every comparison has at least one guard (`t` alone is not a formula) *)
+Fixpoint cmps_nonempty (f : formula) : bool :=
+  match f with
+  | FAtomic (ACmp _ gs) => negb (Nat.eqb (List.length gs) 0)
+  | FAtomic _ => true
+  | FNot g => cmps_nonempty g
+  | FBin _ l r => cmps_nonempty l && cmps_nonempty r
+  | FQ _ _ g => cmps_nonempty g
+  end.
+
+(* the constant signature of a problem (Sem/TffSem.v [csig]): the constants it declares with
+   `type_symbol_i` are symbolic constants and denote themselves, those it declares with
+   `type_function_constant_i` are placeholders *)
+Definition problem_csig (p : problem) : csig :=
+  (map (fun s => (s, CSelf)) (problem_symbols p)
+   ++ map (fun c => ((fcname c ++ suffix (fcsort c))%string, CPlace (fcname c) (fcsort c))) (problem_function_constants p))%list.
+
 (* the assembly every task performs before a problem is printed *)
 Definition pipeline (raw : problem) (d : decomposition) : list problem :=
   decompose (create_unique_formula_names (rename_conflicting_symbols
     (add_annotated_formulas (with_name (pb_name raw)) (pb_formulas raw)))) d.
 
-(* EXTRACT: closed_formula pipeline problem_display emit ident_ok symbol_order sort_strings windows2 *)
+(* EXTRACT: closed_formula pipeline problem_display emit ident_ok symbol_order sort_strings windows2 problem_csig cmps_nonempty *)
